@@ -41,3 +41,13 @@ PARTS = [M.LosslessPart]
 COQ_PROPS = (list(COQ_PROPS) if isinstance(COQ_PROPS, (list, tuple)) else [COQ_PROPS]) + ['Props/SRClookup.v']
 THEOREMS = list(THEOREMS) + ['SRC_meta_valid', 'SRC_get_meta', 'SRC_getitem']
 TABLES = sorted(set(list(globals().get('TABLES') or []) + ['t_src_lookup', 't_classes', 't_ext_tol']))
+
+
+# end-to-end composition (integrator): conv_full (coq/Conv/Full.v) threads the permutation, flip bit and final affine that
+# the geometry half computes into the embed step exactly as DicomStack.to_nifti does; theorems in Props/C01full.v
+from props import convfull as _convfull
+COQ_PROPS = (list(COQ_PROPS) if isinstance(COQ_PROPS, (list, tuple)) else [COQ_PROPS]) + ['Props/C01full.v']
+THEOREMS = list(THEOREMS) + ['C01_voxel_lossless', 'C01_full_projects', 'C01_full_flip', 'C01_normals_from_sources']
+COQ_EXTRA_TARGETS = list(globals().get('COQ_EXTRA_TARGETS') or []) + ['Conv/FullCorr.vo']
+TABLES = sorted(set(list(globals().get('TABLES') or []) + ['t_classes', 't_ext_tol', 't_stack', 't_filter', 't_time', 't_conv']))
+PARTS = list(PARTS) + [_convfull.FullPart]
